@@ -131,8 +131,7 @@ let () =
         | PFuel -> print_endline "fuel")
      | ["t"; forced; meta; h] ->
        let bs = bytes_of_hex h in
-       (match tree_from_wbxml main_table (n_of_int (int_of_string forced)) (n_of_int (int_of_string meta))
-                (nat_of_int 64) bs with
+       (match wbxml_tree_from_wbxml main_table (n_of_int (int_of_string forced)) (n_of_int (int_of_string meta)) bs with
         | BOk t -> print_endline ("ok " ^ s_root t.wt_lang t.wt_charset t.wt_root)
         | BErr e -> print_endline ("err " ^ berrname e ^ " tree=null")
         | BFuel -> print_endline "fuel")
